@@ -30,6 +30,7 @@ const vhCmdLen = 64 // every command of the generated logs is 64 bytes long
 
 var vh06 struct {
 	F, L, P  int64 // follower length, leader length, common prefix
+	Q        int64 // the logs agree again from offset Q on (Q = min(F,L): never)
 	fileLen  int64 // current length of the follower's file
 	loaded   int64 // bytes replayed by the last (modelled) loadAOF
 	addr     string
@@ -40,7 +41,10 @@ func vmC06ConnClose(c *RESPConn) error                                   { retur
 
 // equal MD5 iff equal bytes: a window matches iff it lies inside both logs and inside their common prefix
 func vmC06Match(s *Server, conn *RESPConn, pos, size int64) (bool, error) {
-	return pos+size <= vh06.P && pos+size <= int64(s.aofsz), nil
+	if pos+size > int64(s.aofsz) || pos+size > vh06.L {
+		return false, nil
+	}
+	return pos+size <= vh06.P || pos >= vh06.Q, nil
 }
 
 // the real function scans backwards from startPos for the last command that ends at or before startPos and
@@ -72,7 +76,7 @@ func vmC06LoadAOF(s *Server) error {
 	return nil
 }
 
-//verif:cfg use=c06 quick.b_windows=4 thorough.b_windows=16 b_logs=whole_64-byte_commands b_common_prefix=any ignorego=1
+//verif:cfg use=c06 quick.b_windows=4 thorough.b_windows=16 b_logs=whole_64-byte_commands b_common_prefix=any b_reconvergence=the_logs_may_agree_again_from_any_command_boundary_behind_the_differing_region ignorego=1
 func VH_C06_resume_position() {
 	const W = 512 * 1024
 	maxw := int64(4)
@@ -86,21 +90,31 @@ func VH_C06_resume_position() {
 	// the first differing byte is a value byte of a command (offset 51..61), or one log is a prefix of the other
 	off := P % vhCmdLen
 	vassume((off >= 51 && off < 62) || P == F || P == L)
-	vh06.F, vh06.L, vh06.P = F, L, P
+	// the logs may agree again behind the differing region (an equal-length divergence): from offset Q on
+	Q := vnondetInt64()
+	minFL := F
+	if L < minFL {
+		minFL = L
+	}
+	vassume(Q >= P && Q <= minFL && Q%vhCmdLen == 0)
+	vassume(Q > P || P == minFL)
+	vh06.F, vh06.L, vh06.P, vh06.Q = F, L, P, Q
 	vh06.fileLen, vh06.loaded = F, 0
 
-	s := vhFollower(F, L, P)
+	s := vhFollower(F, L, P, Q)
 	pos, err := s.followCheckSome(vh06.addr, 0, "")
-	vobs("resume", F, L, P, pos, err != nil)
+	vobs("resume", F, L, P, Q, pos, err != nil)
 	if err != nil {
 		vreach("error-return")
 		vhFollowerDone(s)
 		return
 	}
-	kfShort := vknown("C06-short-or-unrelated-log-kept") && (F < W || P < W) && F > 0
-	vassertK("C06.K1.kept_bytes_equal_leaders", vhKeptIsLeaderPrefix(s, pos), kfShort, "C06-short-or-unrelated-log-kept")
-	vassertK("C06.K1.file_cut_to_position", vhFollowerFileLen(s) == pos, kfShort, "C06-short-or-unrelated-log-kept")
-	vassertK("C06.K1.size_counter_is_position", int64(s.aofsz) == pos, kfShort, "C06-short-or-unrelated-log-kept")
-	vassertK("C06.K1.memory_is_replay_of_kept_bytes", vhMemoryIsReplayOf(s, pos), kfShort, "C06-short-or-unrelated-log-kept")
+	// known finding: only some windows are compared ("check some"); when the head window agrees and the logs
+	// agree again behind a differing region, a probe behind that region is taken for the whole prefix
+	kfProbe := vknown("C06-unprobed-window-divergence") && P >= W && Q < minFL
+	vassertK("C06.K1.kept_bytes_equal_leaders", vhKeptIsLeaderPrefix(s, pos), kfProbe, "C06-unprobed-window-divergence")
+	vassert("C06.K1.file_cut_to_position", vhFollowerFileLen(s) == pos)
+	vassert("C06.K1.size_counter_is_position", int64(s.aofsz) == pos)
+	vassert("C06.K1.memory_is_replay_of_kept_bytes", vhMemoryIsReplayOf(s, pos))
 	vhFollowerDone(s)
 }
